@@ -997,6 +997,15 @@ func (ex *Exec) run(s *astate) ([]*astate, *AOutcome, error) {
 				}
 			}
 			if k, ok := cv.ConstVal(); ok {
+				if hb := x.Block(); ex.LoopBound > 0 && fr.backs[hb] > 0 {
+					// the exit test of this loop folds: its iterations are not ones LoopBound rations
+					nb := make(map[*ssa.BasicBlock]int, len(fr.backs))
+					for kk, v := range fr.backs {
+						nb[kk] = v
+					}
+					nb[hb]--
+					fr.backs = nb
+				}
 				ex.jump(fr, k == 0)
 				if ex.SymLoop != nil && ex.arrive(s, fr) {
 					return []*astate{}, nil, nil
